@@ -462,6 +462,23 @@ func c08(x *mon.Ctx) {
 			}
 		}
 	}
+	// the first two TEE_TCB_SVN components against their minimums, jointly (below / at / above each), with the second one zero and
+	// non-zero in the quote
+	for rep := 0; rep < 8; rep++ {
+		qp := policyQuote(r)
+		qp.Body[0], qp.Body[1] = byte(5+r.Intn(200)), byte(rep%2*(2+r.Intn(200)))
+		q, _ := ref.ParseQuote(qp.Bytes())
+		for d0 := -1; d0 <= 1; d0++ {
+			for d1 := -1; d1 <= 1; d1++ {
+				if int(q.TeeTcbSvn[1])-d1 < 0 {
+					continue
+				}
+				m := append([]byte{}, q.TeeTcbSvn...)
+				m[0], m[1] = byte(int(m[0])-d0), byte(int(m[1])-d1)
+				add("min-tee-tcb-svn-components-0-and-1", fmt.Sprintf("quote0%+d/quote1%+d/quote1=%d#%d", d0, d1, q.TeeTcbSvn[1], rep), qp, ref.Policy{MinTeeTcbSvn: m})
+			}
+		}
+	}
 	// MR_TD pinned AND an allow-list: both must hold (pinned value met / not met x allow-list contains it / does not)
 	for rep := 0; rep < 6; rep++ {
 		qp := policyQuote(r)
@@ -606,6 +623,7 @@ func c08(x *mon.Ctx) {
 	})
 	x.Require("xfam-bit", 40, 300, 380)
 	x.Require("mr-td-and-any-mr-td", 12, 40, 60)
+	x.Require("min-tee-tcb-svn-components-0-and-1", 20, 30, 60)
 	// ---- allow-list entries that CONTAIN the quote's MR_TD across an entry boundary (A ends with its first c bytes, B starts with
 	//      the rest): membership is per entry
 	for h := 0; h < x.Pick(24, 400); h++ {
